@@ -456,7 +456,6 @@ pub fn gen_rule(d: &Data, r: &mut Rng) -> String {
                     "* > <2 a> / #_C=1 V=2",
                     "* > <1 2> / _C=1 V=2#",
                     "<C=1 V=2 C=3> > <3 2 1>",
-                    "C=1 V=2 > <2 1>a",
                     "* > <1 a 2> / #_C=1 V C=2",
                 ][..],
             )
